@@ -13,7 +13,10 @@ PROP = {'rule': 'rapid-generated cases. validating: a pod (QoS label in {LSE,LSR
          'optional stale summary annotation) admitted against a fake cluster with one namespace, five PriorityClasses with values on and '
          'between the class ranges, 0-3 matching and 0-2 non-matching ClusterColocationProfiles (selectors, namespace selectors, '
          'qosClass, priorityClassName, labels incl. the class label, annotations, key mappings, koordinatorPriority, schedulerName, '
-         'probability with the random roll as a case input, skip-update-resources, label patch); non-trivial = the pod was translated '
+         'probability with the random roll as a case input, skip-update-resources, label patch); after the main admission the same pod (original object, and admitted object) is admitted again as a create while '
+         'carrying a tampered copy of the true summary annotation (superset with an extra batch or foreign entry in an existing '
+         'container, changed amount, removed entry, extra container, respelled amounts, or the truth) and the annotation must again '
+         'match the final spec; non-trivial = the pod was translated '
          '(mid/batch) and has a fractional or sub-milli cpu amount or a container with a limit but no request. distinct = FNV-64 of the '
          'full case.',
  'assumptions': ['priority class of a pod = the koordinator.sh/priority-class label when present (unknown name = no class), else the '
